@@ -3,8 +3,9 @@ CONSTANTS
   AllSiblings = FALSE
   EnterOnFocusIn = FALSE
   StaleTarget = FALSE
+  FastPath = FALSE
   Depth = 4
-  Shapes = {"A", "B", "H"}
+  Shapes = {"A", "B", "H", "P"}
 SPECIFICATION Spec
 INVARIANTS Conforms RouteSane ChainSane HoverClosed
 CHECK_DEADLOCK FALSE
